@@ -421,3 +421,28 @@ theorem solve_never_numerics (cs : Consts K) (sqrtF : K → K) (s : Solver K n p
   · unfold initialPoint; simp only; split <;> exact hl
 end solver
 end Piqp.C02
+
+namespace Piqp.C02
+section psd
+open Finset Piqp.C14 Piqp.C15
+variable {K : Type} [Field K] [LinearOrder K] [IsStrictOrderedRing K]
+variable {n p m : Nat}
+
+/-- the hypothesis `P ⪰ 0` of the theorems above is about the *stored* (scaled) matrix; it follows from convexity of the
+    user's problem: a positive cost scale and any column scaling keep `P` positive semidefinite -/
+theorem psd_of_scaled {d0 d : Data K n p m} {pre : Precond K n p m} (hs : Applied d0 d pre) (hc : 0 < pre.c)
+    (hP : ∀ x : Vec K n, 0 ≤ quad d0.Psym x) : ∀ x : Vec K n, 0 ≤ quad d.Psym x := by
+  intro x
+  have : quad d.Psym x = pre.c * quad d0.Psym (Vector.ofFn fun i => x[i] * pre.dx[i]) := by
+    unfold quad
+    rw [Finset.mul_sum]
+    refine Finset.sum_congr rfl fun i _ => ?_
+    simp only [C13.ofFn_get]
+    have : (∑ j : Fin n, d.Psym[i][j] * x[j]) = pre.c * pre.dx[i] * ∑ j : Fin n, d0.Psym[i][j] * (x[j] * pre.dx[j]) := by
+      rw [Finset.mul_sum]
+      exact Finset.sum_congr rfl fun j _ => by rw [C01.Psym_scaled hs i j]; ring
+    rw [this]; ring
+  rw [this]
+  exact mul_nonneg (le_of_lt hc) (hP _)
+end psd
+end Piqp.C02
